@@ -107,21 +107,20 @@ Definition spec_excess_blob_gas_7918 (p : blob_params)
     parent_excess + parent_used * (bp_max p - bp_target p) / bp_max p
   else parent_excess + parent_used - target_blob_gas.
 
-(* which schedule entry applies at a timestamp: the latest activated fork that has an
-   entry (EIP-7892: "the blob schedule of the most recent fork") *)
+(* which schedule entry applies at a timestamp: that of the most recent activated fork
+   that has an entry (EIP-7892).  [sched] lists (activation time, parameters) with the
+   NEWEST fork first; a fork without activation time or without entry is skipped. *)
 Fixpoint spec_active_blob_params (time : Z) (sched : list (option Z * option blob_params))
   : option blob_params :=
-  (* [sched] is ordered oldest fork first; each entry = (activation time, parameters) *)
   match sched with
   | [] => None
-  | (t, p) :: rest =>
-      match spec_active_blob_params time rest with
+  | (t, p) :: older =>
+      match (match t, p with
+             | Some t, Some p => if t <=? time then Some p else None
+             | _, _ => None
+             end) with
       | Some q => Some q
-      | None =>
-          match t, p with
-          | Some t, Some p => if t <=? time then Some p else None
-          | _, _ => None
-          end
+      | None => spec_active_blob_params time older
       end
   end.
 
